@@ -74,6 +74,18 @@ def shard_exhaustive(spec, R):
         if bad.size:
             i = int(bad[0])
             R.violation("C18:lroo", f"lroo({a[i].tolist()}) = {int(got[i])}, longest run of ones (>= 2) is {int(exp[i])}", {"series": a[i]})
+        # the same series where the time axis is not the unit-stride axis of the memory handed over
+        wide = np.full((a.shape[0], 2 * L + 1), 1, dtype=np.uint8)
+        wide[:, 1::2] = a
+        for lab, view in (("Fortran order", np.asfortranarray(a)), ("a transposed time-first array", np.ascontiguousarray(a.T).T), ("every second cell of a wider buffer", wide[:, 1::2]),
+                          ("a reversed view", np.ascontiguousarray(a[:, ::-1])[:, ::-1])):
+            g2 = lroo(view)
+            R.count("lroo_layout_calls")
+            bad = np.flatnonzero(np.asarray(g2).astype(np.int64) != exp)
+            if bad.size:
+                i = int(bad[0])
+                R.violation("C18:lroo-layout", f"lroo of {a[i].tolist()} handed over as {lab} = {int(g2[i])}, longest run of ones (>= 2) is {int(exp[i])}", {"series": a[i], "layout": lab})
+                break
         if L == 8:
             R.sample({"series": a[173], "lroo": int(got[173]), "oracle": int(exp[173])})
 
